@@ -28,6 +28,8 @@ func main() {
 	switch cmd {
 	case "core-replay":
 		coreReplay(args)
+	case "tree-replay":
+		treeReplay(args)
 	case "race-replay":
 		raceReplay(args)
 	case "list-replay":
